@@ -62,11 +62,20 @@ func c04GenKind(kind string) func(t *rapid.T) c04Case {
 		c.NumMB = rapid.SampledFrom([]int{1, 1, 2}).Draw(t, "numMB")
 		c.PoolDepth = rapid.IntRange(0, 3).Draw(t, "poolDepth")
 		np := rapid.IntRange(2, 4).Draw(t, "producers")
+		maxEnq, maxCons := 3, 7
+		if kind == "segmented" && rapid.IntRange(0, 1).Draw(t, "rollover") == 1 {
+			// segment roll-over shape (segmentSize is 4 in the overlay): enough enqueues on one
+			// mailbox to fill a segment and overflow it from two producers, and a consumer that
+			// drains the full segment and moves on while those producers are in flight
+			np = rapid.IntRange(3, 4).Draw(t, "producersRoll")
+			c.NumMB = 1
+			maxEnq, maxCons = 4, 11
+		}
 		// the fair mailbox's interesting races need several goroutines on ONE sender's
 		// sub-queue: bias towards few sender identities
 		nSenders := rapid.SampledFrom([]int{1, 1, 1, 2, 2, 3}).Draw(t, "senders")
 		for p := 0; p < np; p++ {
-			n := rapid.IntRange(1, 3).Draw(t, "enqs")
+			n := rapid.IntRange(1, maxEnq).Draw(t, "enqs")
 			var ops []c04Enq
 			for i := 0; i < n; i++ {
 				ops = append(ops, c04Enq{
@@ -78,7 +87,7 @@ func c04GenKind(kind string) func(t *rapid.T) c04Case {
 			c.Producers = append(c.Producers, ops)
 		}
 		for m := 0; m < c.NumMB; m++ {
-			n := rapid.IntRange(1, 7).Draw(t, "consumerOps")
+			n := rapid.IntRange(1, maxCons).Draw(t, "consumerOps")
 			script := make([]int, n)
 			for i := range script {
 				script[i] = rapid.SampledFrom([]int{0, 0, 0, 0, 1, 1, 2}).Draw(t, "cop")
@@ -406,17 +415,33 @@ func c04Exec(x *vfkit.X, c c04Case) {
 			}
 		}
 	}
-	for mi := range mbs {
-		nils := 0
-		for i := 0; i < 40 && nils < 2; i++ {
-			before := len(hist[mi])
-			deqOnce(mi, 200+mi)
-			if hist[mi][before].Res[0] == -1 {
-				nils++
-			} else {
-				nils = 0
+	// The drain runs as a single logical thread under its own scheduler with a step budget, so
+	// that a Dequeue that never returns (e.g. a self-linked segment) is a reported outcome
+	// instead of a hung test process.
+	drain := vfsched.New()
+	drain.MaxSteps = 4000
+	drain.Go("final-drain", func() {
+		for mi := range mbs {
+			nils := 0
+			for i := 0; i < 40 && nils < 2; i++ {
+				before := len(hist[mi])
+				deqOnce(mi, 200+mi)
+				if hist[mi][before].Res[0] == -1 {
+					nils++
+				} else {
+					nils = 0
+				}
 			}
 		}
+	})
+	dout := drain.Run(func(r []*vfsched.Thread) (int, int) { return 0, -1 })
+	for _, th := range drain.Threads() {
+		if th.Panic != nil {
+			x.Failf(c.Kind+":panic", "final drain panicked: %v\n%s", th.Panic, th.Stack)
+		}
+	}
+	if dout != vfsched.Completed {
+		x.Failf(c.Kind+":dequeue-does-not-terminate", "the final sequential drain (single thread, no concurrency) did not finish within %d scheduling steps: a Dequeue loops forever; history so far: %s", drain.MaxSteps, c04Hist(hist))
 	}
 
 	// ---- classification of the case
@@ -476,7 +501,7 @@ func c04Exec(x *vfkit.X, c c04Case) {
 	// ---- oracle 2: linearizability per mailbox (compositional)
 	for mi := range hist {
 		h := hist[mi]
-		if len(h) > 40 {
+		if len(h) > 44 {
 			x.Class("history_too_long_skipped")
 			continue
 		}
